@@ -128,6 +128,46 @@ def spacing_rules(repo):
         incs = [s for s in stores if not (isinstance(s, ast.AugAssign) and isinstance(s.op, ast.Add) and const_value(s.value) == 1)]
         if incs:
             out.append(violation("R-SIB", fi, "every store is an increment by one", unparse(incs[0]), incs[0]))
+    # completeness: no pair with a gap inside [0, max_distance) is skipped
+    from ..affine import cone, consistent_model, SearchLimit, _infeasible, ge as _ge, lt as _lt
+    role = "every pair whose gap d satisfies 0 <= d < max_distance is counted (no over-rejecting skip)"
+    conts = [n for n in walk_no_nested(fi.node) if isinstance(n, ast.Continue)]
+    bad = None
+    n_c = 0
+    for c in conts:
+        for st in ai.states_at(c):
+            st = st.copy()
+            d = ai.lin(st, ast.Name(id="d", ctx=ast.Load()))
+            E = ai.lin(st, ext_expr)
+            if d is None or E is None:
+                continue
+            n_c += 1
+            G = cone(st.G, d) + [_ge(d, 0), _lt(d, E)]
+            if _infeasible(G):
+                continue
+            try:
+                m = consistent_model(G, [], scope=(-2, 6))
+            except SearchLimit:
+                m = None
+            if m is not None:
+                bad = (c, {k: v for k, v in m.items() if len(k) < 20})
+    if bad:
+        out.append(violation("R-ACCEPT", fi, role, "a `continue` is reachable with a gap inside the counted range, e.g. %s (abutting annotations have d = 0)" % bad[1], bad[0],
+                             witness={"assignment": bad[1]}))
+    elif n_c == 0:
+        out.append(unrecognised("R-ACCEPT", fi, role, "no skip statement with a tracked gap found"))
+    else:
+        out.append(holds("R-ACCEPT", fi, role, "%d skip path(s), each contradicts 0 <= d < max_distance" % n_c, conts[0]))
+    # tuple input: columns are reordered to (example, annotation, start, end)
+    role = "tuple input (example, start, end, annotation) is reordered to (example, annotation, start, end)"
+    ro = [s_ for s_ in walk_no_nested(fi.node) if isinstance(s_, ast.Assign) and unparse(s_.targets[0]) == "X" and "torch.cat(x_" in unparse(s_.value)]
+    t = unparse(ro[0].value) if ro else ""
+    if t == "torch.cat(x_, axis=1)[:, [0, 3, 1, 2]]":
+        out.append(holds("R-AXES", fi, role, t, ro[0], nontrivial=False))
+    elif ro and "[:, [" in t:
+        out.append(violation("R-AXES", fi, role, "column order is `%s`" % t, ro[0]))
+    else:
+        out.append(unrecognised("R-AXES", fi, role, t))
     # pair enumeration: inner over annotations[i+1:], outer over annotations[:-1] (or all)
     out += pair_loops(fi)
     return out
@@ -217,6 +257,15 @@ def count_rules(repo):
             out.append(unrecognised("R-SIB", fi, role, "arm is %s" % txt, arm))
         else:
             out.append(holds("R-SIB", fi, role, "; ".join(txt), arm))
+    role = "an explicit shape that exactly fits the observed indices is accepted"
+    gd = [n for n in walk_no_nested(fi.node) if isinstance(n, ast.If) and "shape[0]" in unparse(n.test) and any(isinstance(b, ast.Raise) for b in n.body)]
+    tg = unparse(gd[0].test) if gd else ""
+    if tg == "n_examples > shape[0] or n_annotations > shape[1]":
+        out.append(holds("R-ACCEPT", fi, role, tg, gd[0], nontrivial=False))
+    elif ">=" in tg:
+        out.append(violation("R-ACCEPT", fi, role, "`%s` rejects a shape equal to (max example + 1, max annotation + 1)" % tg, gd[0]))
+    else:
+        out.append(unrecognised("R-ACCEPT", fi, role, tg))
     # ones
     role = "every row contributes exactly one"
     xo = src.get("X_ones")
